@@ -90,6 +90,8 @@ pub fn build_pass_0(
         messages: Rc::new(RefCell::new(parsed.messages)),
     };
 
+    // the budget of macro calls is that of the whole build
+    let mut calls = 0;
     for segment in parsed.segments {
         match segment.t {
             SegmentType::Data | SegmentType::Eeprom => {
@@ -101,7 +103,7 @@ pub fn build_pass_0(
                     t: segment.t,
                     items: vec![],
                 });
-                pass0_internal(segment.clone(), &context, &parsed.macroses, 0, &mut 0)?;
+                pass0_internal(segment.clone(), &context, &parsed.macroses, 0, &mut calls)?;
             }
         }
     }
@@ -114,7 +116,7 @@ const MAX_MACRO_DEPTH: usize = 64;
 /// How long a line of a macro body may get by the substitution of arguments
 const MAX_EXPANDED_LINE: usize = 65536;
 /// How many macro calls one build may expand
-const MAX_MACRO_CALLS: usize = 1_000_000;
+const MAX_MACRO_CALLS: usize = 200_000;
 
 fn pass0_internal(
     segment: Segment,
